@@ -839,7 +839,7 @@ def run_case(e, T, v, path, variant, cache, after_write=None):
                     except ListenerBoom:
                         out['listener_raised'] = True
                 finally:
-                    dispatcher.disconnect(on_updated, signal=events.RowUpdatedSignal, sender=cls)
+                    dispatcher.disconnect(on_updated, signal=events.RowUpdatedSignal, sender=cls, weak=False)
                 for k, (n, r) in enumerate(seen):
                     out['reads']['seen by the RowUpdatedSignal %s (%d)' % (n, k)] = r
                 view('writer-right-after-the-announced-write')
@@ -1565,7 +1565,9 @@ def run(ctx):
             elif path == 'loaded':
                 variant = 'lazy' if idx % 2 == 0 else VARIANTS[(idx + pi) % 3]
             elif path in ('listener', 'listener-raises'):
-                pass          # all three variants in rotation
+                # all three variants in rotation; each value goes through one of the two listener paths (quick tier)
+                if ctx.tier != 'thorough' and not ctx.deep and (idx % 2 == 0) != (path == 'listener'):
+                    continue
             elif path != 'lazy' and variant == 'lazy':
                 # eager paths on a lazy class only become visible after sync: covered by the 'lazy' path; use eager here
                 variant = 'eager'
